@@ -136,3 +136,105 @@ Proof.
     + eapply perm_trans; eauto.
   - apply fold_left_perm; [intros; apply upd_po_comm|exact H].
 Qed.
+
+(* Allocate(): the final allocation (or error) does not depend on the order of the edge list *)
+Theorem allocate_order_free_lemma fuel : forall regs al es es' po, Permutation es es' ->
+  a_allocate fuel {| a_regs := regs; a_alloc := al; a_edges := es; a_poss := po |}
+  = a_allocate fuel {| a_regs := regs; a_alloc := al; a_edges := es'; a_poss := po |}.
+Proof.
+  induction fuel as [|f IH]; intros regs al es es' po H; [reflexivity|]. cbn [a_allocate a_alloc a_edges a_poss a_regs].
+  pose proof (update_edge_order_free_lemma al es es' po H) as Hu.
+  destruct (a_update_go al es [] po) as [[rem po1]| |], (a_update_go al es' [] po) as [[rem' po2]| |]; try contradiction.
+  - destruct Hu as [Hp ->]. cbn [res_bind]. destruct (Nat.eqb (size po2) 0); [reflexivity|].
+    destruct (default [] (po2 !! most_restricted (map_to_list po2))) as [|pch rest]; [reflexivity|]. now apply IH.
+  - now subst.
+Qed.
+
+(* AddInterferenceSet ranges over a Go map: for any two enumeration orders the recorded edges agree
+   up to order and `possible` is the same map *)
+Definition padd (regs : list N) (po : POSS) (v : N) : POSS :=
+  if negb (id_is_virtual v) then po
+  else match po !! v with Some _ => po | None => <[v := List.filter (fun r => id_kind v =? id_kind r) regs]> po end.
+Lemma a_add_eq a v : a_add a v = {| a_regs := a_regs a; a_alloc := a_alloc a; a_edges := a_edges a; a_poss := padd (a_regs a) (a_poss a) v |}.
+Proof. unfold a_add, padd. destruct a as [r al e po]. cbn [a_regs a_alloc a_edges a_poss]. destruct (negb (id_is_virtual v)); [reflexivity|]. destruct (po !! v); reflexivity. Qed.
+Lemma padd_comm regs po x y : padd regs (padd regs po x) y = padd regs (padd regs po y) x.
+Proof.
+  unfold padd. destruct (id_is_virtual x) eqn:Vx, (id_is_virtual y) eqn:Vy; cbn [negb]; try reflexivity.
+  destruct (po !! x) eqn:Ex, (po !! y) eqn:Ey; rewrite ?Ex, ?Ey; try reflexivity.
+  - destruct (decide (y = x)) as [->|Hne]; [congruence|]. rewrite lookup_insert_ne by assumption. now rewrite Ex.
+  - destruct (decide (x = y)) as [->|Hne]; [congruence|]. rewrite lookup_insert_ne by assumption. now rewrite Ey.
+  - destruct (decide (x = y)) as [->|Hne].
+    + rewrite !lookup_insert. reflexivity.
+    + rewrite (lookup_insert_ne _ x y) by assumption. rewrite (lookup_insert_ne _ y x) by congruence. rewrite Ex, Ey.
+      apply insert_commute. congruence.
+Qed.
+
+Definition overlaps (d : reg) (e : N * N) : bool := negb (N.land (rmask d) (snd e) =? 0).
+Lemma ais_spec d order : forall a,
+  a_add_interference_set a d order =
+  {| a_regs := a_regs a; a_alloc := a_alloc a;
+     a_edges := a_edges a ++ List.map (fun e => (rid d, fst e)) (List.filter (overlaps d) order);
+     a_poss := fold_left (padd (a_regs a)) (flat_map (fun e => if overlaps d e then [rid d; fst e] else []) order) (a_poss a) |}.
+Proof.
+  unfold a_add_interference_set. induction order as [|e order IH]; intro a; cbn [fold_left List.filter List.map flat_map].
+  - rewrite app_nil_r. destruct a; reflexivity.
+  - fold (overlaps d e). destruct (overlaps d e); [|apply IH].
+    rewrite IH. unfold a_add_interference. rewrite !a_add_eq. cbn [a_regs a_alloc a_edges a_poss List.map app fold_left].
+    now rewrite <- app_assoc.
+Qed.
+
+Theorem interference_edges_order_free_lemma a d order order' : Permutation order order' ->
+  let s := a_add_interference_set a d order in let s' := a_add_interference_set a d order' in
+  a_regs s = a_regs s' /\ a_alloc s = a_alloc s' /\ Permutation (a_edges s) (a_edges s') /\ a_poss s = a_poss s'.
+Proof.
+  intro H. cbn zeta. rewrite !ais_spec. cbn [a_regs a_alloc a_edges a_poss]. split; [reflexivity|]. split; [reflexivity|]. split.
+  - apply Permutation_app_head, Permutation_map.
+    clear -H. induction H; cbn [List.filter]; auto.
+    + destruct (overlaps d x); auto.
+    + destruct (overlaps d x), (overlaps d y); auto. apply perm_swap.
+    + eapply perm_trans; eauto.
+  - apply fold_left_perm; [intros; apply padd_comm|]. apply Permutation_flat_map. exact H.
+Qed.
+
+Theorem allocate_after_interference_order_free_lemma fuel a d order order' : Permutation order order' ->
+  a_allocate fuel (a_add_interference_set a d order) = a_allocate fuel (a_add_interference_set a d order').
+Proof.
+  intro H. destruct (interference_edges_order_free_lemma a d order order' H) as (R & A & E & P).
+  destruct (a_add_interference_set a d order) as [r1 al1 e1 p1], (a_add_interference_set a d order') as [r2 al2 e2 p2].
+  cbn [a_regs a_alloc a_edges a_poss] in *. subst. now apply allocate_order_free_lemma.
+Qed.
+
+(* Allocation.Merge ranges over the map b: folding its entries in any order gives the same map, or
+   the same error *)
+Definition merge_step (r : res AL) (e : N * N) : res AL :=
+  do m <- r; match m !! fst e with
+             | Some alt => if alt =? snd e then OK (<[fst e := snd e]> m) else Err EDisagree
+             | None => OK (<[fst e := snd e]> m) end.
+Lemma merge_step_comm r e1 e2 : merge_step (merge_step r e1) e2 = merge_step (merge_step r e2) e1.
+Proof.
+  destruct r as [m| |]; [|reflexivity|reflexivity]. destruct e1 as [k1 p1], e2 as [k2 p2]. unfold merge_step. cbn [res_bind fst snd].
+  destruct (decide (k1 = k2)) as [<-|Hne].
+  - destruct (m !! k1) as [alt|] eqn:E.
+    + destruct (alt =? p1) eqn:B1, (alt =? p2) eqn:B2; cbn [res_bind]; rewrite ?lookup_insert; try reflexivity.
+      * apply N.eqb_eq in B1, B2. subst. rewrite N.eqb_refl. reflexivity.
+      * apply N.eqb_eq in B1. apply N.eqb_neq in B2. subst. destruct (N.eqb_spec p1 p2); [congruence|reflexivity].
+      * apply N.eqb_eq in B2. apply N.eqb_neq in B1. subst. destruct (N.eqb_spec p2 p1); [congruence|reflexivity].
+    + cbn [res_bind]. rewrite !lookup_insert. destruct (N.eqb_spec p1 p2) as [->|H]; [now rewrite N.eqb_refl|].
+      destruct (N.eqb_spec p2 p1); [congruence|reflexivity].
+  - assert (Hne' : k2 <> k1) by congruence.
+    destruct (m !! k1) as [a1|] eqn:E1, (m !! k2) as [a2|] eqn:E2.
+    + destruct (a1 =? p1) eqn:B1, (a2 =? p2) eqn:B2; cbn [res_bind]; rewrite ?lookup_insert_ne, ?E1, ?E2, ?B1, ?B2 by assumption; cbn [res_bind]; try reflexivity.
+      f_equal. now apply insert_commute.
+    + destruct (a1 =? p1) eqn:B1; cbn [res_bind]; rewrite ?lookup_insert_ne, ?E1, ?E2, ?B1 by assumption; cbn [res_bind]; try reflexivity.
+      f_equal. now apply insert_commute.
+    + destruct (a2 =? p2) eqn:B2; cbn [res_bind]; rewrite ?lookup_insert_ne, ?E1, ?E2, ?B2 by assumption; cbn [res_bind]; try reflexivity.
+      f_equal. now apply insert_commute.
+    + cbn [res_bind]. rewrite ?lookup_insert_ne, ?E1, ?E2 by assumption. f_equal. now apply insert_commute.
+Qed.
+Theorem merge_order_free_lemma a l l' : Permutation l l' -> fold_left merge_step l (OK a) = fold_left merge_step l' (OK a).
+Proof. intro H. apply fold_left_perm; [intros; apply merge_step_comm|exact H]. Qed.
+Lemma merge_alloc_is_fold a b : merge_alloc a b = fold_left merge_step (rev (map_to_list b)) (OK a).
+Proof.
+  unfold merge_alloc, map_fold. cbn [compose]. rewrite <- fold_left_rev_right, rev_involutive.
+  induction (map_to_list b) as [|[k p] l IH]; [reflexivity|]. cbn [foldr fold_right uncurry]. rewrite IH. reflexivity.
+Qed.
